@@ -1,4 +1,4 @@
-import FimVerif.Proofs.Lemmas.TopoAtomicRollback
+import FimVerif.Proofs.Lemmas.TopoAtomicComp
 /-!
 # C09 — a topology-building call that raises leaves the model unchanged
 
@@ -181,12 +181,34 @@ example : let s : Topo := ⟨[⟨.connectionPoint, .user "i1", "i1", "DedicatedP
   · trivial
 
 
+/-! ## components (experiment flavour: the ids of the component's network service and interfaces are generated) -/
+
+theorem atomic_addComponent (fl : Flavour) (c : Nat) (parent : Nid) (a : CompArgs) (s : Topo)
+    (hfresh : ∀ m ∈ s.nodes, ∀ k, c ≤ k → m.nid ≠ .gen k) (hnid : ∀ k, c ≤ k → a.nid ≠ some (.gen k))
+    (hgen : a.ifNids = none ∧ a.nsNid = none)
+    (hf : failed (addComponent fl c parent a s)) : (addComponent fl c parent a s).2 = s := by
+  unfold addComponent at hf ⊢
+  revert hf
+  refine ro_step (Q := FS s) (by ro) FS.err (fun _ _ => ?_)
+  refine ro_step (Q := FS s) (by ro) FS.err (fun _ _ => ?_)
+  exact compNew_atomic fl c parent a s hfresh hnid hgen
+
+theorem atomic_addStorage (fl : Flavour) (c : Nat) (parent : Nid) (name : String) (nid : Option Nid) (props : List PropArg)
+    (s : Topo) (hfresh : ∀ m ∈ s.nodes, ∀ k, c ≤ k → m.nid ≠ .gen k) (hnid : ∀ k, c ≤ k → nid ≠ some (.gen k))
+    (hf : failed (addStorage fl c parent name nid props s)) : (addStorage fl c parent name nid props s).2 = s := by
+  unfold addStorage at hf ⊢
+  revert hf
+  refine ro_step (Q := FS s) (by ro) FS.err (fun _ _ => ?_)
+  refine ro_step (Q := FS s) (by ro) FS.err (fun _ _ => ?_)
+  refine ro_step (Q := FS s) (by ro) FS.err (fun _ _ => ?_)
+  exact compNew_atomic fl c parent _ s hfresh hnid ⟨rfl, rfl⟩
+
 /-! ## one theorem over the op alphabet
 
 `Covered op s` is the explicit guard: the calls whose atomicity is proved, with the hypotheses on the state and the
 arguments each proof uses.  The calls it excludes are the ones for which the full statement is open or false:
-`addComponent`/`addStorage` (false for caller-supplied colliding ids - known finding, see `addComponent_counterexample`),
-the composites `addFacility`/`addSwitch`,
+`addComponent` with caller-supplied ids for its network service / interfaces (false when they collide - known finding,
+see `addComponent_counterexample`), the composites `addFacility`/`addSwitch`,
 `disconnect` and all removals. -/
 
 def FreshArgs (c : Nat) (s : Topo) (nid : Option Nid) : Prop :=
@@ -203,6 +225,8 @@ def Covered : TopoOp → Topo → Prop
   | .connect _ c _ _ (.iface iid iname), s =>
       IdsDistinct s ∧ Closed s ∧ (∀ n ∈ s.nodes, n.nid = iid → n.cls = .connectionPoint) ∧
       (∀ m ∈ s.nodes, m.nid ≠ .gen c ∧ m.nid ≠ .gen (c + 1))
+  | .addComponent _ c _ a, s => FreshArgs c s a.nid ∧ a.ifNids = none ∧ a.nsNid = none
+  | .addStorage _ c _ _ nid _, s => FreshArgs c s nid
   | .addService _ c a, s => IdsDistinct s ∧ Closed s ∧ FreshArgs c s a.nid ∧ IfsAll s (pick a.nid c).1 c a.ifs
   | .nodeAddService _ c _ a, s => IdsDistinct s ∧ Closed s ∧ FreshArgs c s a.nid ∧ IfsAll s (pick a.nid c).1 c a.ifs
   | _, _ => False
@@ -231,8 +255,12 @@ theorem atomic_op (op : TopoOp) (s : Topo) (hcov : Covered op s) (hf : failed (s
   | nodeAddService fl c p a =>
     obtain ⟨h1, h2, ⟨h3, h4⟩, h5⟩ := hcov
     exact FS_bind_pure (atomic_nodeAddService fl c p a s h1 h2 h3 h4 h5)
-  | addComponent _ _ _ _ => exact hcov.elim
-  | addStorage _ _ _ _ _ _ => exact hcov.elim
+  | addComponent fl c p a =>
+    obtain ⟨⟨h1, h2⟩, h3⟩ := hcov
+    exact FS_bind_pure (atomic_addComponent fl c p a s h1 h2 h3)
+  | addStorage fl c p n i pr =>
+    obtain ⟨h1, h2⟩ := hcov
+    exact FS_bind_pure (atomic_addStorage fl c p n i pr s h1 h2)
   | nsRemoveInterface _ _ _ => exact hcov.elim
   | disconnect _ _ => exact hcov.elim
   | addFacility _ _ _ _ _ _ _ _ _ => exact hcov.elim
